@@ -17,6 +17,13 @@ Executable, core-only.  Mirrors
 namespace OntVerif.Model.NeoInt
 open OntVerif.Util OntVerif.Model.Codec
 
+/-- (core has no `DecidableEq (Except ε α)`; needed to `decide` concrete witnesses) -/
+instance exceptDecEq {ε α : Type} [DecidableEq ε] [DecidableEq α] : DecidableEq (Except ε α)
+  | .ok a, .ok b => if h : a = b then isTrue (by rw [h]) else isFalse (by intro e; injection e; contradiction)
+  | .error a, .error b => if h : a = b then isTrue (by rw [h]) else isFalse (by intro e; injection e; contradiction)
+  | .ok _, .error _ => isFalse (by intro e; cases e)
+  | .error _, .ok _ => isFalse (by intro e; cases e)
+
 /-! ## C21 — NeoBytes (little-endian two's complement, minimal) -/
 
 /-- `big.Int.Bytes()` reversed: the minimal little-endian magnitude (`fuel` = any bound ≥ the number of bytes). -/
@@ -109,9 +116,9 @@ def scaleFactor : Int := 1000000000
 `bigint.Int.Mod/Div` are `big.Int.Mod/Div` (Euclidean) = Lean `%` and `/` on `Int`. -/
 def balanceToItem (z : Int) : Option (UInt8 × Bytes) :=
   if z % scaleFactor ≠ 0 then some (1, toNeo z)
-  else
-    let q := z / scaleFactor
-    if 0 ≤ q ∧ q < 18446744073709551616 then some (0, leN 8 q.toNat) else none
+  else if 0 ≤ z / scaleFactor ∧ z / scaleFactor < 18446744073709551616 then
+    some (0, leN 8 (z / scaleFactor).toNat)      -- MustToInteger64: the quotient is a uint64
+  else none
 
 /-- `NativeTokenBalanceFromStorageItem`; outer `none` = Go panic in the source (unreachable) -/
 def balanceFromItem (ver : UInt8) (val : Bytes) : Option (Except DErr Int) :=
@@ -419,6 +426,31 @@ def cmpResult (op : BOp) (l r : Int) : Bool :=
   | .numnotequal => decide (l ≠ r)
   | _ => false
 
+/-- the `switch opcode` of the ADD … MIN, AND/OR/XOR and SHL/SHR cases -/
+def arithFn (v : Variant) : BOp → IntValue → IntValue → R
+  | .add => IntValue.add
+  | .sub => IntValue.sub
+  | .mul => IntValue.mul
+  | .div => IntValue.div
+  | .mod => IntValue.mod
+  | .max => IntValue.max
+  | .min => IntValue.min
+  | .and => IntValue.and
+  | .or => IntValue.or
+  | .xor => IntValue.xor
+  | .shl => IntValue.lshV v
+  | .shr => IntValue.rshV v
+  | _ => fun _ _ => .error .oversize   -- unreachable (comparisons are handled before)
+
+/-- `PopPairAsIntVal` (right operand first), the operation, `Push(VmValueFromIntValue(val))` -/
+def binInt (f : IntValue → IntValue → R) (a b : Val) : Except Fault Val :=
+  match b.asIntValue with
+  | .error e => .error e
+  | .ok y =>
+    match a.asIntValue with
+    | .error e => .error e
+    | .ok x => pushInt (f x y)
+
 /-- binary opcodes; `a` was pushed first (left), `b` is the top of the stack (right, popped first) -/
 def execBinary (v : Variant) (op : BOp) (a b : Val) : Except Fault Val :=
   if op.isCmp then
@@ -427,27 +459,7 @@ def execBinary (v : Variant) (op : BOp) (a b : Val) : Except Fault Val :=
     match v with
     | .asShipped => .ok (.bool (cmpResult op l r))
     | .sound => if overSize r || overSize l then .error .oversize else .ok (.bool (cmpResult op l r))
-  else
-    match b.asIntValue with
-    | .error e => .error e
-    | .ok y =>
-      match a.asIntValue with
-      | .error e => .error e
-      | .ok x =>
-        match op with
-        | .add => pushInt (x.add y)
-        | .sub => pushInt (x.sub y)
-        | .mul => pushInt (x.mul y)
-        | .div => pushInt (x.div y)
-        | .mod => pushInt (x.mod y)
-        | .max => pushInt (x.max y)
-        | .min => pushInt (x.min y)
-        | .and => pushInt (x.and y)
-        | .or => pushInt (x.or y)
-        | .xor => pushInt (x.xor y)
-        | .shl => pushInt (IntValue.lshV v x y)
-        | .shr => pushInt (IntValue.rshV v x y)
-        | _ => .error .oversize   -- unreachable (comparisons handled above)
+  else binInt (arithFn v op) a b
 
 /-- WITHIN: `x a b` pushed in this order; true iff `a ≤ x < b` -/
 def execWithin (x a b : Val) : Except Fault Val :=
